@@ -17,6 +17,10 @@ pub struct Case {
     /// true: merge as a balanced tree, false: fold left
     pub tree: bool,
     pub gseed: u64,
+    /// Some(k2): the parts (built with `k`, each compressed by its own check) are folded into a fresh, empty
+    /// accumulator of k2 - unions of digests of other k must obey the accumulator's own bounds
+    #[serde(default)]
+    pub acc_k: Option<u16>,
 }
 
 /// accuracy multipliers over t(1-t) * Z / (2k), calibrated on the repaired tree (DESIGN C15):
@@ -57,8 +61,9 @@ pub fn case_strategy(max_n: u32, max_parts: usize) -> impl Strategy<Value = Case
         proptest::collection::vec(proptest::collection::vec(run_strategy(max_n), 1..3), 1..=max_parts),
         any::<bool>(),
         any::<u64>(),
+        prop_oneof![3 => Just(None), 1 => k_strategy().prop_map(Some)],
     )
-        .prop_map(|(k, parts, tree, gseed)| Case { k, parts, tree, gseed })
+        .prop_map(|(k, parts, tree, gseed, acc_k)| Case { k, parts, tree, gseed, acc_k })
 }
 
 pub struct Acc {
@@ -68,6 +73,13 @@ pub struct Acc {
 
 /// structure + accuracy of `td` against the exact sorted data
 pub fn check_digest(td: &mut TDigestMut, sorted: &[f64], gseed: u64, wide: bool, acc_factor: f64, ctx: &str) -> Result<Acc, Fail> {
+    let k = td.k();
+    check_digest_k(td, sorted, gseed, wide, acc_factor, ctx, k)
+}
+
+/// `k_accuracy`: the k the rank-error budget is computed from (the smallest k among the digests that contributed);
+/// the structural bounds always use the digest's own k.
+pub fn check_digest_k(td: &mut TDigestMut, sorted: &[f64], gseed: u64, wide: bool, acc_factor: f64, ctx: &str, k_accuracy: u16) -> Result<Acc, Fail> {
     let n = sorted.len();
     let k = td.k() as usize;
     ensure!(td.total_weight() == n as u64, "C15.total_weight", "{ctx}: total_weight {} but {} values", td.total_weight(), n);
@@ -103,6 +115,7 @@ pub fn check_digest(td: &mut TDigestMut, sorted: &[f64], gseed: u64, wide: bool,
 
     // accuracy against the exact empirical distribution (mid-rank convention)
     let nf = n as f64;
+    let k = (k_accuracy as usize).min(k);
     let z = 4.0 * (nf / (2.0 * k as f64)).max(1.0).ln() + 24.0;
     let mut probes: Vec<f64> = vec![min, max];
     let grid = 2000usize;
@@ -187,6 +200,7 @@ pub fn run_case(c: &Case, info: &mut CaseInfo) -> Result<(), Fail> {
     let all_runs: Vec<&Run> = c.parts.iter().flatten().collect();
     let homog = all_runs.iter().all(|r| r.exp10 == all_runs[0].exp10 && r.shift == all_runs[0].shift)
         && !all_runs.iter().any(|r| matches!(r.shape, Shape::LogUniform(_) | Shape::Extreme | Shape::AtomInCloud(_)));
+    let homog = homog && c.acc_k.is_none();
     let acc = if homog { ACC_FACTOR_HOMOG } else { ACC_FACTOR_MIXED };
     let mut digests: Vec<(TDigestMut, Vec<f64>)> = vec![];
     let mut worst = 0.0f64;
@@ -208,9 +222,21 @@ pub fn run_case(c: &Case, info: &mut CaseInfo) -> Result<(), Fail> {
         }
         digests.push((td, data));
     }
+    if let Some(k2) = c.acc_k {
+        // every part has been compressed (queried / serialized) by now; the accumulator starts empty
+        for (td, data) in digests.iter_mut() {
+            if !data.is_empty() {
+                let mut s = data.clone();
+                s.sort_by(|a, b| a.partial_cmp(b).unwrap());
+                check_digest(td, &s, c.gseed, wide, acc, &format!("part before the union (k {})", c.k))?;
+            }
+        }
+        digests.insert(0, (TDigestMut::new(k2), vec![]));
+        info.label(if k2 < c.k { "acc_k<part_k" } else { "acc_k>=part_k" });
+    }
     let n_parts = digests.len();
     // merge
-    let (mut td, mut data) = if c.tree && n_parts > 2 {
+    let (mut td, mut data) = if c.tree && n_parts > 2 && c.acc_k.is_none() {
         let mut level = digests;
         while level.len() > 1 {
             let mut next = vec![];
@@ -233,13 +259,14 @@ pub fn run_case(c: &Case, info: &mut CaseInfo) -> Result<(), Fail> {
             da.extend(db);
             let mut s = da.clone();
             s.sort_by(|x, y| x.partial_cmp(y).unwrap());
-            let acc_r = check_digest(&mut a, &s, c.gseed, wide, acc, &format!("after merging a part (k {})", c.k))?;
+            let ak = a.k();
+            let acc_r = check_digest_k(&mut a, &s, c.gseed, wide, if c.acc_k.is_some() { ACC_FACTOR_MIXED } else { acc }, &format!("after merging a part (part k {}, accumulator k {})", c.k, ak), c.k)?;
             worst = worst.max(acc_r.worst_ratio);
         }
         (a, da)
     };
     data.sort_by(|a, b| a.partial_cmp(b).unwrap());
-    let acc_f = check_digest(&mut td, &data, c.gseed, wide, acc, &format!("final digest of {n_parts} parts (k {})", c.k))?;
+    let acc_f = check_digest_k(&mut td, &data, c.gseed, wide, if c.acc_k.is_some() { ACC_FACTOR_MIXED } else { acc }, &format!("final digest of {n_parts} parts (k {})", c.k), c.k)?;
     worst = worst.max(acc_f.worst_ratio);
     let n = data.len();
     info.nontrivial = n > c.k as usize && n > 4 * (2 * c.k as usize + 30);
